@@ -31,6 +31,9 @@ CONFIG = {
     "passes": [
         {"name": "tokens", "pkg": "c16", "bin": "c16", "driver": "drv_c16", "timeout": 1500,
          "build_flags": ["-modfile=" + _modfile()]},
+        # the configured server: viper + api.InitConfig() on every shipped ini file (one child process each)
+        {"name": "inis", "pkg": "c16", "bin": "c16", "driver": "drv_c16", "timeout": 1500, "args": ["-mode", "inis"],
+         "reset_prefix": "useini", "build_flags": ["-modfile=" + _modfile()]},
     ],
     "trusted_base": [
         "github.com/golang-jwt/jwt/v4 v4.5.0, crypto/hmac, encoding/base64, encoding/json are NOT modelled: a token string is abstracted as (algorithm class, claims read by the server, the oracle 'HMAC under key k matches'); the harness computes that abstraction itself with strings.Split, base64, json and crypto/hmac (not with the jwt library) and the correspondence compares the real functions with the model on it",
@@ -38,6 +41,7 @@ CONFIG = {
         "what the library does on top of HMAC is mirrored from its v4.5.0 source and checked by the correspondence: only SigningMethodHMAC.Verify accepts a []byte key (none/RSA/ECDSA/PSS/EdDSA never verify), MapClaims.Valid validates exp/iat/nbf (absent or 0 passes, other numbers floored to the second, any other JSON type fails), the payload is read with a json.Decoder (trailing bytes ignored)",
         "one wall clock: time.Now() of the library and types.NowTS() of the server are read within the same second (the harness repeats a case that straddles a second); the server's clock is an int32 (Time4), mirrored",
         "the default secrets, expiry durations, claim names, signing methods and the key callback are read from the source by the translator (Gen/Token.lean) and compared with the compiled values by the `config` op",
+        "api/config.go config() is modelled as an interpreter over the lines `X = setYConfig(KEY, DEFAULT)` the translator reads (a default is evaluated when its line runs); the translator's reading of the shipped ini files ([go-pttbbs:api], '#'/';' comments, quotes) is compared with what viper + api.InitConfig() really produce by the `useini` op in a child process per ini file",
     ],
     "modelled": ["api.VerifyJwt", "api.VerifyRefreshJwt", "api.VerifyEmailJwt", "api.ParseClaimString/ParseClaimInt", "api.ParseJwt (on the abstraction)",
                  "api.CreateToken/CreateRefreshToken/CreateEmailToken (claims, expiry, signing key)", "api.GetJwt", "api.Refresh",
@@ -46,7 +50,7 @@ CONFIG = {
     "assumptions": [
         "claimed partial: HMAC, base64url and JSON parsing are outside the model (uninterpreted oracle + the harness's own decoding)",
         "JSON numbers of magnitude >= 2^53 in exp/iat/nbf are outside the model (int(float64) and time.Unix are not portable there); such cases are counted and skipped",
-        "the secrets are the source defaults (`secrets_pairwise_distinct` is a fact about api/00-config.go; a deployment that configures equal secrets loses the separation of kinds: theorem `equal_secrets_break_kinds`)",
+        "the secrets are those in force after api.InitConfig(): `effective_secrets_pairwise_distinct` is a fact about api/00-config.go + api/config.go + every shipped ini file (and no ini entry); a deployment whose own ini file sets equal secrets loses the separation of kinds: theorem `equal_secrets_break_kinds`",
         "refresh_same_user's 'both tokens verify' needs a clock later than REFRESH-JWT expiry distance + epsilon after the epoch (6 days + 2 s) — the general statement with the guest/empty-token disjuncts is proved as well",
     ],
 }
